@@ -39,6 +39,10 @@ def cases(tier, seed):
                         second_round=R.choice(["same_builder", "restored_builder"]), mods=R.sample(["remove_extreme", "replace_older", "update"], R.choice([0, 1, 2]))))
     for i in range(3 if tier == "quick" else 30):
         out.append(dict(writer="tile_fits", depth=0, mode="F32", par=R.choice([1, 2]), via="tile_fits", seed=R.randrange(1 << 30), fill=1.0, tan=(i % 3 != 2)))
+    # pyramids of depth 0: an image of at most 256x256 pixels, whose only tile is leaf and root at once
+    for i in range(4 if tier == "quick" else 30):
+        out.append(dict(writer="study", depth=0, mode=R.choice(["F32", "F64"]), par=R.choice([1, 2]), via="builder", seed=R.randrange(1 << 30), fill=1.0))
+        out.append(dict(writer="tile_fits", depth=0, mode="F32", par=R.choice([1, 2]), via="tile_fits", seed=R.randrange(1 << 30), fill=1.0, tan=True, small=True))
     return out
 
 
@@ -94,7 +98,7 @@ def write_leaves(spec, base, R, rng):
                 pio.write_image(Pos(*p), Image.from_array(a, default_format="fits"))
         b.imgset.tile_levels = depth
     elif w == "study":
-        size = R.choice([300, 600, 1100]) if depth >= 2 else R.choice([300, 500])
+        size = R.choice([300, 600, 1100]) if depth >= 2 else (R.choice([300, 500]) if depth >= 1 else R.choice([120, 200, 256]))  # depth 0: the single leaf IS the root
         img = (rng.normal(size=(size - R.randrange(0, 90), size)) * R.choice([1, 1e4]) + R.choice([0, -50.0])).astype(DT[spec["mode"]])
         img[rng.random(img.shape) < 0.2] = np.nan
         img[: img.shape[0] // 3, : img.shape[1] // 2] = np.nan
@@ -309,7 +313,7 @@ def case_tile_fits(spec, workdir, R, rng):
 
     from vlib import fitsgen
 
-    W, H = R.randrange(300, 900), R.randrange(300, 700)
+    W, H = (R.randrange(300, 900), R.randrange(300, 700)) if not spec.get("small") else (R.randrange(60, 257), R.randrange(60, 257))
     mosaic = (rng.normal(size=(H, W)) * 5 + 2).astype(np.float32)
     mosaic[rng.random(mosaic.shape) < 0.05] = np.nan
     ind = os.path.join(workdir, "in")
